@@ -217,7 +217,7 @@ impl Prop for C04 {
         Some("tape")
     }
     fn rule(&self) -> String {
-        "generated transition systems x unrolling depth 0-5 x entry point (init_at(0) + unrolls; init_at(s>0) + unrolls as PDR does), driven through the public UnrollSmtEncoding / TransitionSystemEncoding API with an in-process recording SolverContext (text from the real serialize_cmd). (a) strict script check by the independent SMT-LIB front end: every symbol declared or defined exactly once before use, every term well-sorted; (b) faithfulness: a concrete execution from the reference simulator (random free initial values, inputs, next-less states; arbitrary state at the entry step when s>0) is bound to exactly the declare-const symbols, every define-fun is evaluated, and for every state, input, constraint and bad state e and every step j the symbol returned by get_signal_at(e, j) must have the value of e at step j (4 executions per script). Non-trivial: system in which a non-leaf signal is used by two of {init, next, other} and depth >= 1; distinct by hash of the script.".into()
+        "generated transition systems x unrolling depth 0-5 x entry point (init_at(0) + unrolls; init_at(s>0) + unrolls as PDR does), driven through the public UnrollSmtEncoding / TransitionSystemEncoding API (in 22% of the cases on an encoder object that has already served an earlier, overlapping init_at + unrolling into another solver) with an in-process recording SolverContext (text from the real serialize_cmd). (a) strict script check by the independent SMT-LIB front end: every symbol declared or defined exactly once before use, every term well-sorted; (b) faithfulness: a concrete execution from the reference simulator (random free initial values, inputs, next-less states; arbitrary state at the entry step when s>0) is bound to exactly the declare-const symbols, every define-fun is evaluated, and for every state, input, constraint and bad state e and every step j the symbol returned by get_signal_at(e, j) must have the value of e at step j (4 executions per script). Non-trivial: system in which a non-leaf signal is used by two of {init, next, other} and depth >= 1; distinct by hash of the script.".into()
     }
     fn budget(&self, tier: Tier) -> Budget {
         match tier {
@@ -237,8 +237,19 @@ impl Prop for C04 {
         let text = show_system(ctx, &sys);
         let mut rng = SplitMix(hash_bytes(tape));
         let mut solver = Recorder2::default();
+        // history on one encoder object: sometimes the encoder has already served an earlier
+        // (overlapping) unrolling into another solver before the recorded one; init_at re-initialises it
+        let reuse: Option<(u64, u64)> = if t.chance(56) { Some((t.below(3) as u64, t.below(4) as u64)) } else { None };
         let enc = guard(|| {
             let mut enc = UnrollSmtEncoding::new(ctx, &sys, false);
+            if let Some((start0, depth0)) = reuse {
+                let mut scratch = Recorder2::default();
+                enc.define_header(&mut scratch).unwrap();
+                enc.init_at(ctx, &mut scratch, start0).unwrap();
+                for _ in 0..depth0 {
+                    enc.unroll(ctx, &mut scratch).unwrap();
+                }
+            }
             enc.define_header(&mut solver).unwrap();
             enc.init_at(ctx, &mut solver, start).unwrap();
             for _ in 0..depth {
@@ -257,6 +268,9 @@ impl Prop for C04 {
             }
         };
         rec.label(&format!("entry:{}", entry));
+        if reuse.is_some() {
+            rec.label("encoder-reused-after-an-earlier-unrolling");
+        }
         rec.label(&format!("depth:{}", depth));
         let script = solver.script.clone();
         // (a)
